@@ -168,8 +168,11 @@ pub fn run(prop: &str, depth: usize) {
                 }
             }
             if print {
-                step("pretty-print a chain 3000 levels deep in all four modes");
-                let (a, ids) = chain(3000);
+                step("pretty-print a chain 4000 levels deep in all four modes on a 64 KiB stack");
+                let prop2 = prop.to_string();
+                let t = std::thread::Builder::new().stack_size(64 << 10).spawn(move || {
+                let prop = prop2.as_str();
+                let (a, ids) = chain(4000);
                 for mode in 0..4 {
                     let mut sink = CountSink { bytes: 0, lines: 0 };
                     let pr = ids[0].debug_pretty_print(&a);
@@ -179,9 +182,13 @@ pub fn run(prop: &str, depth: usize) {
                         2 => write!(sink, "{:?}", pr),
                         _ => write!(sink, "{:#?}", pr),
                     };
-                    if r.is_err() || sink.lines != 2999 {
+                    if r.is_err() || sink.lines != 3999 {
                         fail(prop, "pretty-printing a deep chain gives the wrong number of lines");
                     }
+                }
+                }).expect("spawn");
+                if t.join().is_err() {
+                    fail(prop, "pretty-printing a deep chain panicked");
                 }
             }
             step("done");
